@@ -31,12 +31,12 @@ Conforms(name, e, r) ==
                                      /\ name # "Skip" => e.val = r.val
                                      /\ name \in SizeOps => e.size = r.size
 
-TInit == /\ l = 1 /\ buf = <<>> /\ off = 0 /\ sink = <<>> /\ items = <<>>
+TInit == /\ l = 1 /\ buf = <<>> /\ off = 0 /\ sink = <<>> /\ spare = <<>> /\ items = <<>>
          /\ res = NoRes /\ act = [name |-> "Init", n |-> 0] /\ ncalls = 0
 
 TReset == /\ l <= Len(Tr) /\ Ev.event = "Reset" /\ l' = l + 1
           /\ buf' = Ev.buf /\ off' = 0 /\ res' = NoRes /\ act' = [name |-> "Reset", n |-> 0]
-          /\ UNCHANGED <<sink, items, ncalls>>
+          /\ UNCHANGED <<sink, spare, items, ncalls>>
 
 \* the next state continues from the offset the real reader reports (after an eof / irregular outcome the
 \* position is not property relevant; it only has to stay inside the buffer)
@@ -45,12 +45,12 @@ TRead == /\ l <= Len(Tr) /\ Ev.event \in NullaryOps \cup CountOps /\ l' = l + 1
          /\ off' = Ev.off
          /\ res' = Res(Ev.val, Ev.size, Ev.irr, Ev.eof, Ev.off, Ev.err)
          /\ act' = [name |-> Ev.event, n |-> Ev.n]
-         /\ UNCHANGED <<buf, sink, items, ncalls>>
+         /\ UNCHANGED <<buf, sink, spare, items, ncalls>>
 
 TBack == /\ l <= Len(Tr) /\ Ev.event = "BackUp" /\ l' = l + 1
          /\ Ev.n <= off /\ Ev.panic = "" /\ Ev.off = off - Ev.n
          /\ off' = off - Ev.n /\ res' = NoRes /\ act' = [name |-> "BackUp", n |-> Ev.n]
-         /\ UNCHANGED <<buf, sink, items, ncalls>>
+         /\ UNCHANGED <<buf, sink, spare, items, ncalls>>
 
 TNext == TReset \/ TRead \/ TBack
 TSpec == TInit /\ [][TNext]_tvars
